@@ -19,7 +19,8 @@ StartEpisode ==
            start == <<Rec[l].lex.start>>
            G == MkG(P)
            (* lexeme ids are 0-based in the grammar; L is indexed by id *)
-           L == [i \in 0..(Len(Rec[l].lex.lexemes) - 1) |-> MkLexeme(Rec[l].lex.lexemes[i + 1])]
+           lz == IF "lazy" \in DOMAIN Rec[l].lex THEN {Rec[l].lex.lazy[i] : i \in DOMAIN Rec[l].lex.lazy} ELSE {}
+           L == [i \in 0..(Len(Rec[l].lex.lexemes) - 1) |-> MkLexemeZ(Rec[l].lex.lexemes[i + 1], i \in lz)]
            (* `%ignore`: the id of the ignored lexeme (the last one of the list), or NoSkip *)
            skip == IF "skip" \in DOMAIN Rec[l].lex THEN Rec[l].lex.skip ELSE NoSkip
        IN  /\ gx' = [G |-> G, L |-> L, start |-> start, skip |-> skip, reduced |-> Reduced(P, start),
